@@ -202,16 +202,28 @@ class DenseOutput(object):
             self.__t_eval_arr_stale = False
         return self.__t_eval_arr
 
+    def __covers(self, idx, t):
+        interp = self.y_interpolants[idx]
+        return bool((interp.t0 <= t) & (t <= interp.t1)) or bool((interp.t1 <= t) & (t <= interp.t0))
+
     def find_interval(self, t):
         if self.t_eval is None:
             raise ValueError("No interpolant has been added and time interval is not defined!")
-        return min(deutil.search_bisection(self.t_eval, t), len(self.y_interpolants) - 1)
+        idx = min(deutil.search_bisection(self.t_eval, t), len(self.y_interpolants) - 1)
+        # `t_eval` holds the END time of each step: for a backward integration that is the lower bound of
+        # the step, so the bisection lands on the neighbouring step and the one before it contains `t`
+        if idx > 0 and not self.__covers(idx, t) and self.__covers(idx - 1, t):
+            idx -= 1
+        return idx
 
     def find_interval_vec(self, t):
         if self.t_eval is None:
             raise ValueError("No interpolant has been added and time interval is not defined!")
         out = deutil.search_bisection_vec(self.t_eval_arr, t)
         out[out > len(self.y_interpolants) - 1] = len(self.y_interpolants) - 1
+        for i in range(len(out)):
+            if out[i] > 0 and not self.__covers(out[i], t[i]) and self.__covers(out[i] - 1, t[i]):
+                out[i] -= 1
         return out
 
     def __call__(self, t):
